@@ -223,4 +223,9 @@ def run(ctx):
         check_nc(cfg, arts[0], rep)
         check_dup(cfg, arts, rep)
         check_crl(cfg, arts[2], rep)
+        if cfg == "K1":
+            # SAN criticality is decided from the name's map while the subject is written from its order list: the
+            # invariants tying the two together (C20) are necessary for "critical exactly when the subject is empty"
+            import c20
+            common.borrow_rules(rep, lambda: (c20.writers(cfg, crate, rep), c20.push(cfg, crate, rep), c20.remove(cfg, crate, rep), c20.iteration(cfg, crate, rep)), "C20.", "C05.dn")
         check_csr(cfg, arts[1], rep)
